@@ -227,8 +227,19 @@ theorem bulkLoop_heapOk (k : Nat) : ∀ (f : Nat) (w : World) (pl : List Par) (m
         · exact hp
         · exact bulkLoop_heapOk k f _ _ _ hp
 
+theorem syncLinks_heapOk (l : List ObjId) : ∀ (ls : List (String × String)) (w : World), HeapOk w → HeapOk (syncLinks l w ls).w
+  | [], _, h => h
+  | (key, val) :: rest, w, h => by
+    simp only [syncLinks]
+    split
+    · exact h
+    · have hm := matchParametersValues_heapOk w l [(key, (w.heap.get ‹ObjId›).value)] h
+      split
+      · exact hm
+      · exact syncLinks_heapOk l rest _ hm
+
 theorem bulkAlias_heapOk (w : World) (k : Nat) (es : List (String × String)) (h : HeapOk w) : HeapOk (bulkAlias w k es).w := by
-  simp only [bulkAlias]
+  simp only [bulkAlias, bulkAliasG]
   split
   · exact h
   · rename_i o _
@@ -238,7 +249,7 @@ theorem bulkAlias_heapOk (w : World) (k : Nat) (es : List (String × String)) (h
     · exact hl
     · split
       · exact hl
-      · exact matchParametersValues_heapOk _ _ _ hl
+      · exact syncLinks_heapOk _ _ _ hl
 
 theorem renameListeners_heap (old new : String) : ∀ (reg : List (String × Nat)) (w : World),
     (renameListeners old new w reg).heap = w.heap
@@ -656,7 +667,7 @@ theorem bulkLoop_narrow (k : Nat) : ∀ (f : Nat) (w : World) (pl : List Par) (m
         · exact hp.trans (bulkLoop_narrow k f _ _ _)
 
 theorem bulkAlias_narrow (w : World) (k : Nat) (es : List (String × String)) : Narrow w (bulkAlias w k es).w := by
-  simp only [bulkAlias]
+  simp only [bulkAlias, bulkAliasG]
   split
   · exact Narrow.refl w
   · rename_i o _
@@ -666,7 +677,7 @@ theorem bulkAlias_narrow (w : World) (k : Nat) (es : List (String × String)) : 
     · exact hl
     · split
       · exact hl
-      · exact hl.trans (matchParametersValues_sameBut _ _ _).narrow
+      · exact hl.trans (syncLinks_sameBut _ _ _).narrow
 
 theorem setNamespace_narrow (w : World) (k : Nat) (new : String) : Narrow w (setNamespace w k new).w := by
   simp only [setNamespace]
@@ -886,7 +897,7 @@ theorem bulkLoop_linked (k : Nat) : ∀ (f : Nat) (w : World) (pl : List Par) (m
 `key -> value` of the map (as sorted by `std::map`) is a registered link "key follows value" -/
 theorem bulkAlias_linked {w : World} (h : Inv w) (k : Nat) (es : List (String × String))
     (ok : (bulkAlias w k es).err = none) : ∀ e ∈ mkMap es, Linked (bulkAlias w k es).w k (aliasId e.2 e.1) := by
-  simp only [bulkAlias] at ok ⊢
+  simp only [bulkAlias, bulkAliasG] at ok ⊢
   cases ho : w.objs k with
   | none => simp [ho] at ok
   | some o =>
@@ -899,7 +910,7 @@ theorem bulkAlias_linked {w : World} (h : Inv w) (k : Nat) (es : List (String ×
       obtain ⟨_, b⟩ := bulkLoop_linked k _ w _ (mkMap es) h hl
       intro e he
       obtain ⟨o', ho', hid⟩ := b e he
-      simp only [ho']
-      exact ⟨o', by rw [(matchParametersValues_sameBut _ _ _).objs]; exact ho', hid⟩
+      simp only [ho', if_true]
+      exact ⟨o', by rw [(syncLinks_sameBut _ _ _).objs]; exact ho', hid⟩
 
 end Bpp.Alias
